@@ -5,7 +5,7 @@ set -u
 src=$1
 export GOFLAGS=-mod=mod GOPROXY=off GOSUMDB=off GOTOOLCHAIN=local
 wt=$(mktemp -d /tmp/seedconf-XXXXXX); rmdir "$wt"
-git -C /repo worktree add -q --detach "$wt" HEAD || exit 2
+git -C /repo worktree add -q --detach "$wt" ${BASE:-HEAD} || exit 2
 trap 'git -C /repo worktree remove --force "$wt" 2>/dev/null; rm -rf "$wt"' EXIT
 ( cd "$src" && timeout 600 bash ./demo.sh "$wt" >/tmp/seedconf_orig.log 2>&1 ); o=$?
 ( cd "$wt" && git apply "$src/patch.diff" ) || { echo "patch does not apply"; exit 2; }
